@@ -72,6 +72,10 @@ class Prop(common.PropertyCheck):
             for cont in ('array', 'sample'):
                 yield {'g': 'ellipse', 'cont': cont, 'N': 40, 'a': a, 'b': b, 'theta': 0.0, 'center': [500.0, 400.0], 'log': False, 'chform': 'pos',
                        'dtype': 'float', 'degenerate': True, 'seed': 500 + i}
+        # unrotated ellipses with events exactly on, one unit in the last place inside and one outside the boundary
+        for i, (a, b) in enumerate([(2.0, 3.0), (5.0, 5.0), (0.75, 1e3), (300.0, 200.0)]):
+            yield {'g': 'ellipse', 'cont': 'array', 'N': 24, 'a': a, 'b': b, 'theta': 0.0, 'center': [0.0, 0.0] if i % 2 == 0 else [512.0, 256.0], 'log': False,
+                   'chform': 'pos', 'dtype': 'float', 'onboundary': True, 'seed': 700 + i}
         for bad in ('ellipse1', 'ellipse3', 'startend_too_many'):
             yield {'g': 'bad', 'what': bad}
 
@@ -98,6 +102,13 @@ class Prop(common.PropertyCheck):
                 a[mk] = np.round(a[mk])
                 if case.get('dtype') == 'float_nan' and N:
                     a[r.rand(N, D) < 0.1] = np.nan
+                if case.get('onboundary') and N:
+                    cx, cy = case['center']; A, B = case['a'], case['b']
+                    pts = [(cx + A, cy), (cx + np.nextafter(A, np.inf), cy), (cx + np.nextafter(A, 0), cy), (cx - A, cy), (cx, cy + B), (cx, cy + np.nextafter(B, np.inf)),
+                           (cx, cy - np.nextafter(B, 0)), (cx + 0.6 * A, cy + 0.8 * B), (cx - 0.6 * A, cy - 0.8 * B), (cx + 0.8 * A, cy - 0.6 * B),
+                           (cx + A * (1 + 3e-10), cy), (cx, cy + B * (1 + 2e-10)), (cx + A * (1 - 3e-10), cy)]
+                    for k, (px, py) in enumerate(pts[:N]):
+                        a[k, 0], a[k, 1] = px, py
                 if case.get('degenerate') and N:
                     a[:, 0] = r.uniform(490, 510, size=N); a[:, 1] = r.uniform(390, 410, size=N)
                     a[::5, 0] = case['center'][0]              # on the vertical line through the centre
@@ -133,6 +144,8 @@ class Prop(common.PropertyCheck):
                 except Exception as e:
                     return {'raised': type(e).__name__}
             d, names = self.data(case)
+            import copy as _copy
+            d0 = _copy.deepcopy(d)          # the input as it was before the gate was called
             arr = np.asarray(d, dtype=np.float64) if d.size else np.zeros(d.shape)
             out = {}
             if g == 'start_end':
@@ -228,7 +241,10 @@ class Prop(common.PropertyCheck):
                           'ncontour': len(full.contour)}
                 d = dd
             mask = np.asarray(full.mask)
-            ref = d[mask]
+            if g == 'ellipse':
+                d0 = d            # (the ellipse cases derive `dd` from the generated data before gating)
+            out['input_unchanged'] = fpm.any_fp(d) == fpm.any_fp(d0)
+            ref = d0[mask]
             out.update({'mask': [bool(x) for x in mask], 'mask_dtype': str(mask.dtype), 'mask_shape': list(mask.shape),
                         'gated_eq_masked': fpm.any_fp(full.gated_data) == fpm.any_fp(ref),
                         'short_eq_full': fpm.any_fp(short) == fpm.any_fp(full.gated_data),
@@ -295,6 +311,13 @@ class Prop(common.PropertyCheck):
                     continue
                 f = form(xb, yb)
                 if abs(f - 1) <= band:
+                    if p['theta'] == 0.0:
+                        # no rotation: the documented quotient form in floating point decides (the centred coordinates are exact)
+                        xv = struct.unpack('<d', struct.pack('<Q', xb))[0]; yv = struct.unpack('<d', struct.pack('<Q', yb))[0]
+                        qf = np.float64(((np.float64(xv) - np.float64(p['center'][0])) / np.float64(p['a'])) ** 2) + \
+                            np.float64(((np.float64(yv) - np.float64(p['center'][1])) / np.float64(p['b'])) ** 2)
+                        want.append(bool(qf <= 1))
+                        continue
                     self.exclude('ellipse: event within 1e-9 of the boundary')
                     want.append(m)
                 else:
@@ -312,6 +335,8 @@ class Prop(common.PropertyCheck):
             return '%s: mask differs from the documented predicate at events %s (%s)' % (g, bad[:5], {k: v for k, v in case.items() if k != 'seed'})
         if impl['mask_shape'] != [impl['N']] or impl['mask_dtype'] != 'bool':
             return '%s: mask is not a boolean vector with one entry per event' % g
+        if impl.get('input_unchanged') is False:
+            return '%s changed the sample it was given (events or metadata differ from a copy made before the call)' % g
         if not impl['gated_eq_masked']:
             return '%s: gated data is not the input restricted to the mask (events, order or metadata differ)' % g
         if not impl['short_eq_full']:
